@@ -762,6 +762,26 @@ func c08ServerProbe(c *core.Ctx, nt *types.Named) {
 		return ok && ff == flag && core.NamedOf(base.Type()) == tn
 	})
 	c.Check(g, tk+".RecvMsg:probe-on-single", second.Pos(), "second preface read on the single-request edge", "the second-request probe is not tied to the single-request flag")
+	// the probe looks where the messages come from: every read of the request in RecvMsg uses one and the same
+	// reader (a second, buffered view of the body would hide what it has already pulled in from the other)
+	paths := map[string]bool{}
+	core.Instrs(fn, func(in ssa.Instruction) {
+		call, ok := in.(*ssa.Call)
+		if !ok || len(call.Call.Args) == 0 {
+			return
+		}
+		ci := core.InfoOf(&call.Call)
+		if ci.Static == nil || call.Call.IsInvoke() {
+			return
+		}
+		sig := ci.Static.Signature
+		if sig.Recv() != nil || sig.Params().Len() == 0 || core.TypeStr(sig.Params().At(0).Type()) != "io.Reader" {
+			return
+		}
+		paths[accessPath(call.Call.Args[0])] = true
+	})
+	c.Check(len(paths) == 1, tk+".RecvMsg:one-reader", second.Pos(), fmt.Sprintf("every read of the request in RecvMsg uses the same reader %v", keysOf(paths)),
+		fmt.Sprintf("the request is read through different readers %v: what a buffered reader has already pulled in is invisible to the other, so the second-request probe (or a later message) looks at the wrong place", keysOf(paths)))
 	// after the probe: nil only under err == io.EOF
 	isEOF := func(v ssa.Value) bool { g, ok := core.GlobalLoad(v); return ok && g == "io.EOF" }
 	visited := core.Walk(core.After(second), nil, func(b *ssa.BasicBlock, si int) bool {
@@ -810,10 +830,21 @@ func c08ServerProbe(c *core.Ctx, nt *types.Named) {
 // necessary condition of C02 (the final status is not replaced by success) and
 // of C07 (a reply cut before the end of the trailer is a failed call): the probe
 // is where a terminal transport error of a single-response call surfaces.
-func singleResponseProbes(c *core.Ctx) int {
+func singleResponseProbes(c *core.Ctx, pkgs ...string) int {
 	p := c.P
 	n := 0
 	for _, nt := range streamTypes(p, "ClientStream", "RecvMsg") {
+		if len(pkgs) > 0 {
+			in := false
+			for _, pk := range pkgs {
+				if pkgSuffixOf(nt) == pk {
+					in = true
+				}
+			}
+			if !in {
+				continue
+			}
+		}
 		fam := methodFamily(p, nt, "RecvMsg")
 		if len(fam) == 0 {
 			continue
@@ -831,4 +862,40 @@ func singleResponseProbes(c *core.Ctx) int {
 		c08ClientType(c, nt, fam)
 	}
 	return n
+}
+
+// accessPath renders where a value is loaded from as a field path rooted at a
+// parameter ("s.r.Body"); other roots are rendered by their SSA name.
+func accessPath(v ssa.Value) string {
+	for depth := 0; depth < 8; depth++ {
+		switch x := v.(type) {
+		case *ssa.MakeInterface:
+			v = x.X
+			continue
+		case *ssa.ChangeInterface:
+			v = x.X
+			continue
+		case *ssa.ChangeType:
+			v = x.X
+			continue
+		case *ssa.UnOp:
+			if x.Op == token.MUL {
+				if fa, ok := x.X.(*ssa.FieldAddr); ok {
+					st := fa.X.Type().Underlying().(*types.Pointer).Elem().Underlying().(*types.Struct)
+					return accessPath(fa.X) + "." + st.Field(fa.Field).Name()
+				}
+				if os := core.Origins(x); len(os) == 1 && os[0] != ssa.Value(x) {
+					v = os[0]
+					continue
+				}
+			}
+		case *ssa.Field:
+			st := x.X.Type().Underlying().(*types.Struct)
+			return accessPath(x.X) + "." + st.Field(x.Field).Name()
+		case *ssa.Parameter:
+			return x.Name()
+		}
+		break
+	}
+	return core.ValName(v)
 }
